@@ -104,12 +104,19 @@ func TestWorker(t *testing.T) {
 			}
 			buf := make([]byte, 4<<20)
 			n := runtime.Stack(buf, true)
-			var gl []string
+			var gl, durable []string
 			for _, g := range strings.Split(string(buf[:n]), "\n\n") {
 				if strings.Contains(g, "github.com/ProtonMail/gluon/") && !strings.Contains(g, "TestWorker") {
-					gl = append(gl, g)
+					// goroutines that are NOT durably blocked (lock waits, running) come first:
+					// they are what keeps the simulation from reaching quiescence
+					if strings.Contains(strings.SplitN(g, "\n", 2)[0], "(durable)") {
+						durable = append(durable, g)
+					} else {
+						gl = append(gl, g)
+					}
 				}
 			}
+			gl = append(gl, durable...)
 			if len(gl) > 12 {
 				gl = gl[:12]
 			}
